@@ -165,9 +165,11 @@ class FalsyAbort(Exception):
 def abort_exception(n):
     """
     The exception used to leave a block: an Exception, a bare BaseException,
-    KeyboardInterrupt, or an Exception instance that is falsy.
+    KeyboardInterrupt, an Exception instance that is falsy, or a KeyError raised by the
+    caller's own code (the library catches KeyError internally for missing nodes).
     """
-    return [Abort("injected"), BaseAbort("injected"), KeyboardInterrupt("injected"), FalsyAbort("injected")][n % 4]
+    return [Abort("injected"), BaseAbort("injected"), KeyboardInterrupt("injected"), FalsyAbort("injected"),
+            KeyError("the caller's own failed lookup")][n % 5]
 
 
 def cm_enter(check, cm):
